@@ -76,8 +76,9 @@ class Obj:
 class Policy:
     """Which callees are followed."""
 
-    def __init__(self, also=(), never=(), props=(), private=True):
+    def __init__(self, also=(), never=(), props=(), private=True, modules=()):
         self.also, self.never, self.props, self.private = set(also), set(never), set(props), private
+        self.modules = set(modules)      # module-level functions of these modules are followed whatever their name
 
     def follow(self, name, fn, kind):
         if name in self.never:
@@ -299,6 +300,12 @@ class Sx:
                 return False
             val = self.ev(s.value, st)
             targets = s.targets if isinstance(s, ast.Assign) else [s.target]
+            if len(targets) > 1 and any(isinstance(t, ast.Name) for t in targets) and self._is_fresh_container(val):
+                # a = self.f = dict(): one container, several names
+                n = self.fresh("$obj")
+                self.objs[n] = Obj(n, val, s)
+                self.objs[n].frames, self.objs[n].conds = st.frames, st.conds
+                val = N(n)
             for t in targets:
                 self.assign(t, val, st, s)
             return False
@@ -498,6 +505,18 @@ class Sx:
                 self.block(s.body, inner)
                 st.env = inner.env
             return
+        if isinstance(it, ast.IfExp) and not s.orelse and not _own_break(s.body):
+            alts = leaves(it)
+            if len(alts) <= 4 and all(self._static_items(leaf) is not None for _, leaf in alts):
+                # for x in (A if c else B), A and B known statically: the loop of each alternative under its condition
+                self._emit("iter", st, s, value=it)
+                for conds, leaf in alts:
+                    inner = _State(dict(st.env), st.frames, st.conds + tuple(conds))
+                    for x_ in self._static_items(leaf):
+                        self.assign(s.target, x_, inner, s, loop_target=True)
+                        self.block(s.body, inner)
+                    self._havoc(st, inner)
+                return
         frames, elem, cs = self.iter_frame(it, s)
         inner = _State(dict(st.env), st.frames + tuple(frames), st.conds + tuple(cs))
         for fr in frames:
@@ -1005,7 +1024,8 @@ class Sx:
 
     def _inline(self, tgt, args, kwargs, st, node, force=False):
         kind, name, fn, modname, owner, recv, cenv = tgt
-        if not force and not self.policy.follow(name, fn, kind):
+        if not force and not self.policy.follow(name, fn, kind) and not (kind == "func" and name not in self.policy.never and any(
+                modname == m or modname == "mouette." + m for m in self.policy.modules)):
             return None
         if any(a.fn is fn for a in self.stack) or len(self.stack) >= MAXDEPTH:
             return None
@@ -1051,6 +1071,20 @@ class Sx:
                 g = self.fresh("$gen")
                 self.gens[g] = (list(frames), val, list(conds))
                 return N(g)
+            if act.yields and all(not fr for _, fr, _ in act.yields):
+                groups = []
+                for conds, _, val in act.yields:
+                    key = [au.canon_test(t, p) for t, p in conds]
+                    if groups and groups[-1][0] == key:
+                        groups[-1][2].append(val)
+                    else:
+                        groups.append((key, conds, [val]))
+                if len({tuple(g[0]) for g in groups}) == len(groups):
+                    term = ast.Tuple(elts=[], ctx=ast.Load())
+                    for key, conds, vals in reversed(groups):
+                        t_ = ast.Tuple(elts=vals, ctx=ast.Load())
+                        term = t_ if not conds else ast.IfExp(test=conj(conds), body=t_, orelse=term)
+                    return term
             del self.effects[n_eff:]
             return None
         r = self._activate(act, env, st)
